@@ -102,7 +102,9 @@ func verifC01NominationLemmas() {
 			}
 		}
 		for _, ps := range s.before.pairs {
-			if ps.nomOnSucc { // forks on the symbolic flag
+			// Inv: a deferred nomination waits on a pair that is not yet valid
+			// (it is set only then and consumed when the pair becomes valid)
+			if verifAnd(ps.nomOnSucc, ps.state != CandidatePairStateSucceeded) { // forks on the symbolic flag and state
 				verifReach("deferred-nomination-armed")
 				still := false
 				for _, q := range s.after.pairs {
@@ -110,7 +112,16 @@ func verifC01NominationLemmas() {
 						still = q.nomOnSucc
 					}
 				}
-				verifAssert(verifOr(still, s.after.selected == ps.p), "a-deferred-nomination-stays-armed-until-its-pair-is-selected")
+				// ... or until the pair's own check succeeds in this step: the
+				// nomination is evaluated then (applied, or outranked by the
+				// priority rule / a later nomination) and consumed
+				validatedNow := false
+				for _, q := range s.after.pairs {
+					if q.p == ps.p {
+						validatedNow = verifAnd(ps.state != CandidatePairStateSucceeded, q.state == CandidatePairStateSucceeded)
+					}
+				}
+				verifAssert(verifOr(verifOr(still, s.after.selected == ps.p), validatedNow), "a-deferred-nomination-stays-armed-until-its-pair-is-selected-or-becomes-valid")
 			}
 		}
 	}
